@@ -37,7 +37,13 @@ pub struct Shared {
     pub panics: Mutex<Vec<String>>,
     pub api: Mutex<Vec<(u64, Api)>>,
     pub noise: u32,
+    pub done: AtomicBool,
+    pub watchdog_note: Mutex<Option<(String, String)>>,
 }
+
+/// Called by the watchdog thread when it has evidence of a deadlock on library locks: the thread that runs
+/// the scenario may itself be stuck, so the callback must publish the result and end the process.
+pub type OnDeadlock = Arc<dyn Fn(Violation, String) + Send + Sync>;
 
 impl Shared {
     fn next_seq(&self) -> u64 {
@@ -416,8 +422,9 @@ async fn send_body(mut tx: SendStream<Bytes>, side: Side, tag: u32, body_id: u32
         let mut n = want;
         if reserve && want > 0 {
             tx.reserve_capacity(want);
-            let got = if tx.capacity() > 0 {
-                tx.capacity()
+            let have = tx.capacity();
+            let got = if have > 0 {
+                have
             } else {
                 match poll_fn(|cx| tx.poll_capacity(cx)).await {
                     Some(Ok(c)) => c,
@@ -650,8 +657,51 @@ fn catch<T: Send + 'static>(name: String, sh: Arc<Shared>, f: impl FnOnce() -> T
         .expect("spawn")
 }
 
-pub fn run_threads(sc: &ThreadScenario, watchdog_secs: u64) -> ThreadRun {
-    let sh = Arc::new(Shared { seq: AtomicU64::new(1), abort: AtomicBool::new(false), progress: AtomicU64::new(0), panics: Mutex::new(Vec::new()), api: Mutex::new(Vec::new()), noise: sc.noise });
+pub fn run_threads(sc: &ThreadScenario, watchdog_secs: u64, on_deadlock: OnDeadlock) -> ThreadRun {
+    let sh = Arc::new(Shared { seq: AtomicU64::new(1), abort: AtomicBool::new(false), progress: AtomicU64::new(0), panics: Mutex::new(Vec::new()), api: Mutex::new(Vec::new()), noise: sc.noise, done: AtomicBool::new(false), watchdog_note: Mutex::new(None) });
+    // ---- watchdog: a thread that never touches the library (the scenario thread itself may get stuck on a lock)
+    {
+        let sh = sh.clone();
+        std::thread::Builder::new()
+            .name("watchdog".into())
+            .spawn(move || {
+                let t0 = Instant::now();
+                let mut last = (sh.progress.load(Ordering::Relaxed), Instant::now());
+                loop {
+                    std::thread::sleep(Duration::from_millis(if cfg!(miri) { 20 } else { 50 }));
+                    if sh.done.load(Ordering::Relaxed) {
+                        return;
+                    }
+                    let p = sh.progress.load(Ordering::Relaxed);
+                    if p != last.0 {
+                        last = (p, Instant::now());
+                    }
+                    if last.1.elapsed() > Duration::from_secs(watchdog_secs) || t0.elapsed() > Duration::from_secs(watchdog_secs * 10) {
+                        let dump = dump_stacks();
+                        // threads parked inside Mutex::lock on one of h2's own mutexes
+                        let mut blocked = 0;
+                        let mut cur_blocked = false;
+                        for l in dump.lines() {
+                            if l.starts_with("Thread") {
+                                cur_blocked = false;
+                            } else if !cur_blocked && l.contains("Mutex::lock<h2::") {
+                                cur_blocked = true;
+                                blocked += 1;
+                            }
+                        }
+                        if blocked >= 2 {
+                            let v = Violation::new("C20", "deadlock-on-library-locks", format!("no thread made progress for {} s and {} threads are parked inside Mutex::lock on h2's own mutexes; stacks in the replay notes", watchdog_secs, blocked));
+                            on_deadlock(v, dump.clone());
+                            // (the callback normally ends the process)
+                        }
+                        *sh.watchdog_note.lock().unwrap() = Some((format!("watchdog: no progress for {} s ({} thread(s) parked on a library lock)", watchdog_secs, blocked), dump));
+                        sh.abort.store(true, Ordering::Relaxed);
+                        return;
+                    }
+                }
+            })
+            .expect("spawn watchdog");
+    }
     let pipe = TPipe::new(sh.clone(), sc.seed, sc.max_chunk, sc.pending_prob);
     let mut violations: Vec<Violation> = Vec::new();
     let mut stats = Stats::default();
@@ -805,34 +855,22 @@ pub fn run_threads(sc: &ThreadScenario, watchdog_secs: u64) -> ThreadRun {
         None
     };
 
-    // ---- watchdog: wait for the connection threads, watching the progress counter
-    let t0 = Instant::now();
-    let mut last_progress = (sh.progress.load(Ordering::Relaxed), Instant::now());
+    // ---- wait for the threads (the watchdog thread decides about stalls)
     let mut inconclusive = None;
     loop {
         if client_h.is_finished() && server_h.is_finished() && stream_hs.iter().all(|h| h.is_finished()) {
             break;
         }
-        std::thread::sleep(Duration::from_millis(if cfg!(miri) { 1 } else { 2 }));
-        let p = sh.progress.load(Ordering::Relaxed);
-        if p != last_progress.0 {
-            last_progress = (p, Instant::now());
-        }
-        if last_progress.1.elapsed() > Duration::from_secs(watchdog_secs) || t0.elapsed() > Duration::from_secs(watchdog_secs * 10) {
-            // no progress: dump the stacks, then release every parked thread
-            let dump = dump_stacks();
-            let blocked = dump.matches("Mutex").count() + dump.matches("futex_wait").count();
-            let h2_locks = dump.lines().filter(|l| l.contains("h2::") && (l.contains("lock") || l.contains("Mutex"))).count();
-            notes.push(format!("watchdog fired after {:?}; stack dump:\n{}", t0.elapsed(), dump));
-            if h2_locks >= 2 {
-                violations.push(Violation::new("C20", "deadlock-on-library-locks", format!("no thread made progress for {} s and {} frames inside h2 are waiting for a lock ({} lock waits in all); stacks in the replay notes", watchdog_secs, h2_locks, blocked)));
-            } else {
-                inconclusive = Some(format!("watchdog: no progress for {} s without evidence of a lock cycle", watchdog_secs));
-            }
-            sh.abort.store(true, Ordering::Relaxed);
-            std::thread::sleep(Duration::from_millis(300));
+        if sh.abort.load(Ordering::Relaxed) {
+            std::thread::sleep(Duration::from_millis(400));
             break;
         }
+        std::thread::sleep(Duration::from_millis(if cfg!(miri) { 1 } else { 2 }));
+    }
+    sh.done.store(true, Ordering::Relaxed);
+    if let Some((why, dump)) = sh.watchdog_note.lock().unwrap().take() {
+        notes.push(format!("{}; stack dump:\n{}", why, dump));
+        inconclusive = Some(why);
     }
     let aborted = sh.abort.load(Ordering::Relaxed);
     // ---- collect
